@@ -170,7 +170,7 @@ PROPS = {
         'technique': 'call-graph SCC + per-edge counter transfer analysis (ranking argument)',
     },
     'C10': {
-        'rules': [rule('X9'), rule('X10'), rule('X11'), rule('X12'), rule('X16'), rule('X21'), rule('P2'), rule('P3')],
+        'rules': [rule('X9'), rule('X10'), rule('X11'), rule('X12'), rule('X16'), rule('X21'), rule('W6'), rule('P2'), rule('P3')],
         'explanation': 'The live define table goes into the nested run and the returned table is adopted, the included text is merged '
                        '(X9, X10); a failing included run is wrapped in Error::Include and a missing file is File{path tried} (X10, '
                        'P2); nothing opens or probes a file unless the arm guard `!ignore_include` holds (X11); flags are forwarded '
@@ -368,7 +368,7 @@ PROPS = {
         'technique': 'type-graph reachability + per-handler effect summary (exactly-once emission)',
     },
     'C18': {
-        'rules': [rule('X9'), rule('X4'), rule('X13', keep=['re-preprocess'])],
+        'rules': [rule('X9'), rule('X4'), rule('X13', keep=['re-preprocess']), rule('G22')],
         'explanation': 'strip_comments reaches every nested run unchanged (X9: includes, macro expansion, `include via macro); under the flag '
                        'the only arm whose behaviour changes is the Comment arm, which emits a separator in place of the comment so '
                        'that neighbouring tokens are not joined; no arm that emits non-comment text is disabled by the flag; whole-node '
